@@ -874,7 +874,9 @@ pub proof fn lemma_den_tree(t: JV, l: Map<Seq<char>, JV>, q: Seq<Seq<char>>, p: 
     decreases t
 {
     let m = t->Object_0;
+    assert(t == JV::Object(m));
     if den(qpre(q), t, p, leaf) {
+        assert(exists|k: Seq<char>| #[trigger] m.contains_key(k) && den(Some(pjoin(qpre(q), k)), m[k], p, leaf));
         let k = choose|k: Seq<char>| #[trigger] m.contains_key(k) && den(Some(pjoin(qpre(q), k)), m[k], p, leaf);
         lemma_pjoin_push(q, k);
         let pk = join_dot(q.push(k));
@@ -887,6 +889,7 @@ pub proof fn lemma_den_tree(t: JV, l: Map<Seq<char>, JV>, q: Seq<Seq<char>>, p: 
             assert(m[k] == l[pk]);
             assert(p == pk && leaf == m[k]);
             lemma_key_at(l, l, q, k);
+            assert(segs(p).subrange(0, q.push(k).len() as int) =~= segs(p));
             lemma_prefix_push(q, k, segs(p));
         }
     }
@@ -933,4 +936,220 @@ pub proof fn lemma_tree_settings(t: JV, l: Map<Seq<char>, JV>, f: Map<Seq<char>,
         lemma_den_tree(t, l, q, p, f[p]);
     }
     assert(f =~= l);
+}
+
+// ---- the merging tail of load_configs_raw ---------------------------------------------------------------
+pub proof fn lemma_tail_empty(cj: Seq<JV>)
+    requires cj.len() == 0
+    ensures tree_ok(JV::Object(Map::empty()), later_wins(paths_seq(cj)), Seq::empty())
+{
+    let l = later_wins(paths_seq(cj));
+    assert(l == Map::<Seq<char>, JV>::empty());
+    lemma_tree_empty(l, Seq::empty());
+}
+
+pub proof fn lemma_tail_init(cj: Seq<JV>)
+    ensures
+        tree_ok(JV::Object(Map::empty()), later_wins(paths_seq(cj).take(0)), Seq::empty()),
+        flat_wf(later_wins(paths_seq(cj).take(0))),
+{
+    let l = later_wins(paths_seq(cj).take(0));
+    assert(l == Map::<Seq<char>, JV>::empty());
+    lemma_tree_empty(l, Seq::empty());
+}
+
+/// one more file: its nested form merged into the accumulator
+pub proof fn lemma_tail_step(cj: Seq<JV>, idx: int, acc: JV)
+    requires
+        files_ok(cj), 0 <= idx < cj.len(),
+        tree_ok(acc, later_wins(paths_seq(cj).take(idx)), Seq::empty()), flat_wf(later_wins(paths_seq(cj).take(idx))),
+    ensures
+        forall|f: Map<Seq<char>, JV>, nt: JV| #![trigger settings_of(f, None, cj[idx]), tree_ok(nt, f, Seq::empty())]
+            settings_of(f, None, cj[idx]) && flat_wf(f) && tree_ok(nt, f, Seq::empty())
+            ==> tree_ok(merge(acc, nt), later_wins(paths_seq(cj).take(idx + 1)), Seq::empty())
+                && flat_wf(later_wins(paths_seq(cj).take(idx + 1)))
+                && (idx + 1 == cj.len() ==> later_wins(paths_seq(cj).take(idx + 1)) == later_wins(paths_seq(cj))),
+{
+    let ps = paths_seq(cj);
+    let a = later_wins(ps.take(idx));
+    let v = cj[idx];
+    assert forall|f: Map<Seq<char>, JV>, nt: JV| #![trigger settings_of(f, None, cj[idx]), tree_ok(nt, f, Seq::empty())]
+        settings_of(f, None, cj[idx]) && flat_wf(f) && tree_ok(nt, f, Seq::empty())
+        implies tree_ok(merge(acc, nt), later_wins(paths_seq(cj).take(idx + 1)), Seq::empty())
+            && flat_wf(later_wins(paths_seq(cj).take(idx + 1)))
+            && (idx + 1 == cj.len() ==> later_wins(paths_seq(cj).take(idx + 1)) == later_wins(paths_seq(cj))) by {
+        lemma_paths_ok(v, f);
+        assert(f == paths(v));
+        assert(ps[idx] == paths(v));
+        assert forall|j: int| 0 <= j < ps.take(idx).len() implies compat(#[trigger] ps.take(idx)[j], f) by {
+            assert(ps.take(idx)[j] == paths(cj[j]));
+            assert(compat(paths(cj[j]), paths(cj[idx])));
+        }
+        lemma_lw_compat(ps.take(idx), f);
+        lemma_tree_merge(acc, a, nt, f, Seq::empty());
+        lemma_lw_step(ps, idx);
+        lemma_lw2_flat_wf(a, f);
+        if idx + 1 == cj.len() { assert(ps.take(idx + 1) =~= ps); }
+    }
+}
+
+/// a single file
+pub proof fn lemma_tail_single(cj: Seq<JV>)
+    requires cj.len() == 1, files_ok(cj)
+    ensures
+        forall|f: Map<Seq<char>, JV>, t: JV| #![trigger settings_of(f, None, cj[0]), tree_ok(t, f, Seq::empty())]
+            settings_of(f, None, cj[0]) && flat_wf(f) && tree_ok(t, f, Seq::empty())
+            ==> tree_ok(t, later_wins(paths_seq(cj)), Seq::empty()),
+{
+    assert forall|f: Map<Seq<char>, JV>, t: JV| #![trigger settings_of(f, None, cj[0]), tree_ok(t, f, Seq::empty())]
+        settings_of(f, None, cj[0]) && flat_wf(f) && tree_ok(t, f, Seq::empty())
+        implies tree_ok(t, later_wins(paths_seq(cj)), Seq::empty()) by {
+        lemma_paths_ok(cj[0], f);
+        assert(paths_seq(cj) =~= seq![f]);
+        lemma_lw_single(f);
+    }
+}
+
+/// the merged nested form, flattened and nested once more, is itself
+pub proof fn lemma_tail_final(cj: Seq<JV>, t: JV)
+    requires files_ok(cj), tree_ok(t, later_wins(paths_seq(cj)), Seq::empty()), flat_wf(later_wins(paths_seq(cj)))
+    ensures
+        forall|f: Map<Seq<char>, JV>, t2: JV| #![trigger settings_of(f, None, t), tree_ok(t2, f, Seq::empty())]
+            settings_of(f, None, t) && flat_wf(f) && tree_ok(t2, f, Seq::empty()) ==> t2 == t,
+{
+    let ps = paths_seq(cj);
+    let l = later_wins(ps);
+    assert forall|i: int, j: int| 0 <= i <= j < ps.len() implies compat(#[trigger] ps[i], #[trigger] ps[j]) by {
+        assert(compat(paths(cj[i]), paths(cj[j])));
+    }
+    lemma_lw_compat_self(ps);
+    assert forall|f: Map<Seq<char>, JV>, t2: JV| #![trigger settings_of(f, None, t), tree_ok(t2, f, Seq::empty())]
+        settings_of(f, None, t) && flat_wf(f) && tree_ok(t2, f, Seq::empty()) implies t2 == t by {
+        lemma_tree_settings(t, l, f);
+        lemma_tree_unique(t2, t, f, Seq::empty());
+    }
+}
+
+// ---- the example of the property statement, for every key and value ("later-file-wins for two files with one scalar") -----
+/// file 1 spells a setting flat (`{"a.b": x}`), file 2 spells it nested (`{"a": {"b": y}}`): both denote the one setting "a.b",
+/// the two files are `files_ok`, "later wins" is {a.b -> y}, and its nested form is file 2. (Also shows that the hypotheses of
+/// C32.later-file-wins are satisfiable.)
+pub proof fn lemma_example_flat_then_nested(a: Seq<char>, b: Seq<char>, x: JV, y: JV)
+    requires dotfree(a), dotfree(b), !(x is Object), !(y is Object), !(x is Array && y is Array)
+    ensures ({
+        let k = a + seq!['.'] + b;
+        let v1 = JV::Object(Map::<Seq<char>, JV>::empty().insert(k, x));
+        let v2 = JV::Object(Map::<Seq<char>, JV>::empty().insert(a, JV::Object(Map::<Seq<char>, JV>::empty().insert(b, y))));
+        let files = seq![v1, v2];
+        &&& paths(v1) == Map::<Seq<char>, JV>::empty().insert(k, x)
+        &&& paths(v2) == Map::<Seq<char>, JV>::empty().insert(k, y)
+        &&& files_ok(files)
+        &&& later_wins(paths_seq(files)) == Map::<Seq<char>, JV>::empty().insert(k, y)
+        &&& tree_ok(v2, later_wins(paths_seq(files)), Seq::empty())
+    })
+{
+    let k = a + seq!['.'] + b;
+    let e = Map::<Seq<char>, JV>::empty();
+    let m1 = e.insert(k, x);
+    let inner = e.insert(b, y);
+    let m2 = e.insert(a, JV::Object(inner));
+    let v1 = JV::Object(m1);
+    let v2 = JV::Object(m2);
+    let f1 = e.insert(k, x);
+    let f2 = e.insert(k, y);
+    // what the two files denote
+    assert forall|p: Seq<char>, leaf: JV| den(None, v1, p, leaf) == (p == k && leaf == x) by {
+        if den(None, v1, p, leaf) {
+            let kk = choose|kk: Seq<char>| #[trigger] m1.contains_key(kk) && den(Some(pjoin(None, kk)), m1[kk], p, leaf);
+            assert(kk == k);
+        }
+        if p == k && leaf == x {
+            assert(den(Some(pjoin(None, k)), m1[k], p, leaf));
+            lemma_den_intro(None, m1, p, leaf, k);
+        }
+    }
+    assert forall|p: Seq<char>, leaf: JV| den(None, v2, p, leaf) == (p == k && leaf == y) by {
+        assert(pjoin(Some(a), b) == k);
+        if den(None, v2, p, leaf) {
+            let kk = choose|kk: Seq<char>| #[trigger] m2.contains_key(kk) && den(Some(pjoin(None, kk)), m2[kk], p, leaf);
+            assert(kk == a);
+            assert(den(Some(a), JV::Object(inner), p, leaf));
+            let k2 = choose|k2: Seq<char>| #[trigger] inner.contains_key(k2) && den(Some(pjoin(Some(a), k2)), inner[k2], p, leaf);
+            assert(k2 == b);
+        }
+        if p == k && leaf == y {
+            assert(den(Some(pjoin(Some(a), b)), inner[b], p, leaf));
+            lemma_den_intro(Some(a), inner, p, leaf, b);
+            assert(den(Some(pjoin(None, a)), m2[a], p, leaf));
+            lemma_den_intro(None, m2, p, leaf, a);
+        }
+    }
+    assert(settings_of(f1, None, v1) && flat_wf(f1));
+    assert(settings_of(f2, None, v2) && flat_wf(f2));
+    lemma_paths_ok(v1, f1);
+    lemma_paths_ok(v2, f2);
+    let files = seq![v1, v2];
+    let ps = paths_seq(files);
+    assert(ps =~= seq![f1, f2]);
+    // shape: the only key is k
+    assert(files_ok(files)) by {
+        assert forall|i: int, j: int| 0 <= i <= j < files.len() implies compat(#[trigger] paths(files[i]), #[trigger] paths(files[j])) by {}
+    }
+    // later wins
+    assert(ps.drop_last() =~= seq![f1]);
+    lemma_lw_single(f1);
+    assert(later_wins(ps) == lw2(f1, f2));
+    assert(lw2(f1, f2) =~= f2);
+    // its nested form
+    let l = f2;
+    let sk = seq![a, b];
+    assert(sk.drop_last() =~= seq![a]);
+    assert(join_dot(seq![a]) == a);
+    assert(join_dot(sk) == k);
+    lemma_split_unique(sk, k);
+    let q0 = Seq::<Seq<char>>::empty();
+    let qa = q0.push(a);
+    assert(qa =~= seq![a]);
+    assert(qa.push(b) =~= sk);
+    assert forall|h: Seq<char>| under(l, q0.push(h)) == (h == a) by {
+        if under(l, q0.push(h)) {
+            let kk = choose|kk: Seq<char>| l.contains_key(kk) && #[trigger] is_prefix(q0.push(h), segs(kk));
+            lemma_prefix_push(q0, h, segs(kk));
+        }
+        if h == a { assert(sk.subrange(0, 1) =~= q0.push(a)); assert(l.contains_key(k) && is_prefix(q0.push(a), segs(k))); }
+    }
+    assert(interior(l, qa)) by { assert(sk.subrange(0, 1) =~= qa); assert(l.contains_key(k) && proper_prefix(qa, segs(k))); }
+    assert forall|h: Seq<char>| under(l, qa.push(h)) == (h == b) by {
+        if under(l, qa.push(h)) {
+            let kk = choose|kk: Seq<char>| l.contains_key(kk) && #[trigger] is_prefix(qa.push(h), segs(kk));
+            lemma_prefix_push(qa, h, segs(kk));
+        }
+        if h == b { assert(sk.subrange(0, 2) =~= qa.push(b)); assert(l.contains_key(k) && is_prefix(qa.push(b), segs(k))); }
+    }
+    assert(!interior(l, qa.push(b))) by {
+        if interior(l, qa.push(b)) {
+            let kk = choose|kk: Seq<char>| l.contains_key(kk) && #[trigger] proper_prefix(qa.push(b), segs(kk));
+        }
+    }
+    assert(tree_ok(JV::Object(inner), l, qa));
+    assert(tree_ok(v2, l, q0));
+}
+
+/// C32 "a dotted flat key means exactly the same as the nested form", end to end: two files that denote the same settings
+/// (whatever mixture of flat and nested spelling each uses) are loaded to the same configuration:
+/// f_i = parse(v_i).config, t_i = to_emmyrc(parse(v_i)) by the contracts of `parse` and `to_emmyrc_json`.
+pub proof fn lemma_same_meaning_same_result(v1: JV, v2: JV, f1: Map<Seq<char>, JV>, f2: Map<Seq<char>, JV>, t1: JV, t2: JV)
+    requires
+        forall|p: Seq<char>, leaf: JV| den(None, v1, p, leaf) == den(None, v2, p, leaf),
+        unambiguous(v1),
+        settings_of(f1, None, v1), settings_of(f2, None, v2),
+        tree_ok(t1, f1, Seq::empty()), tree_ok(t2, f2, Seq::empty()),
+    ensures t1 == t2
+{
+    assert(settings_of(f2, None, v1)) by {
+        assert forall|p: Seq<char>| #[trigger] f2.contains_key(p) implies den(None, v1, p, f2[p]) by { assert(den(None, v2, p, f2[p])); }
+        assert forall|p: Seq<char>, leaf: JV| #[trigger] den(None, v1, p, leaf) implies f2.contains_key(p) by { assert(den(None, v2, p, leaf)); }
+    }
+    lemma_settings_unique(f1, f2, v1);
+    lemma_tree_unique(t1, t2, f1, Seq::empty());
 }
